@@ -2,7 +2,7 @@
 // key storage (keystore v1 RedisStorage, keystore v2 RedisBackend) and the Redis token store.
 //
 // It implements, with the documented semantics of Redis 5/6, exactly the commands those components (through
-// go-redis v7) issue: PING ECHO AUTH SELECT GET SET(EX|PX|NX|XX) SETNX SETEX PSETEX MGET DEL UNLINK EXISTS STRLEN
+// go-redis v7) issue: PING ECHO AUTH SELECT GET SET(EX|PX|NX|XX) MSET SETNX SETEX PSETEX MGET DEL UNLINK EXISTS STRLEN
 // RENAME RENAMENX SCAN KEYS TTL PTTL EXPIRE PEXPIRE PERSIST DBSIZE FLUSHDB FLUSHALL TYPE. Anything else is
 // answered with "-ERR unknown command" and counted (a monitor that sees a non-zero count treats the run as
 // rig-inconclusive: the stand-in does not cover what Acra asked for).
@@ -385,7 +385,7 @@ func readCommand(r *bufio.Reader) ([]string, error) {
 	return argv, nil
 }
 
-var mutating = map[string]bool{"SET": true, "SETNX": true, "SETEX": true, "PSETEX": true, "DEL": true, "UNLINK": true, "RENAME": true,
+var mutating = map[string]bool{"SET": true, "MSET": true, "SETNX": true, "SETEX": true, "PSETEX": true, "DEL": true, "UNLINK": true, "RENAME": true,
 	"RENAMENX": true, "EXPIRE": true, "PEXPIRE": true, "PERSIST": true, "FLUSHDB": true, "FLUSHALL": true}
 
 func bulk(v string) string     { return "$" + strconv.Itoa(len(v)) + "\r\n" + v + "\r\n" }
@@ -578,6 +578,14 @@ func (s *Server) apply(st *connState, name string, a []string) string {
 			e.expireAt = old.expireAt
 		}
 		s.db(db)[a[0]] = e
+		return okReply
+	case "MSET":
+		if len(a) < 2 || len(a)%2 != 0 {
+			return wrongArgs(name)
+		}
+		for i := 0; i < len(a); i += 2 {
+			s.db(db)[a[i]] = &entry{val: a[i+1]}
+		}
 		return okReply
 	case "SETNX":
 		if len(a) != 2 {
